@@ -90,7 +90,7 @@ def run(repo, gendir):
     if not (byte_reads or item_reads):
         bad.append("relocReadCall")
     # fix-up range test of the growth path
-    fix = re.search(r"\(uint8_t\*\)\s*reloc_target\s*(>=|>)\s*b->data\s*&&\s*\(uint8_t\*\)\s*reloc_target\s*(<=|<)\s*b->data\s*\+\s*b->used", arena_c)
+    fix = re.search(r"(?:\(uint8_t\*\)\s*)?reloc_target\s*(>=|>)\s*b->data\s*&&\s*(?:\(uint8_t\*\)\s*)?reloc_target\s*(<=|<)\s*b->data\s*\+\s*b->used", arena_c)
     if fix is None:
         bad.append("fixupTest")
     p2r = re.search(r"\(uint8_t\*\)\s*address\s*(>=|>)\s*arena->buffers\[i\]\.data\s*&&\s*\(uint8_t\*\)\s*address\s*(<=|<)\s*arena->buffers\[i\]\.data\s*\+\s*arena->buffers\[i\]\.used", arena_c)
